@@ -49,7 +49,13 @@ def _z3_check(smt, timeout_ms, opts):
     reason = ""
     if r == z3.sat:
         try:
-            model = s.model().sexpr()
+            m = s.model()
+            # constants only: function interpretations are large and not needed for replay
+            parts = []
+            for d in m.decls():
+                if d.arity() == 0:
+                    parts.append(f"(define-fun {d.name()} () {d.range().sexpr()} {m[d].sexpr()})")
+            model = "\n".join(parts)
         except Exception:
             model = None
     elif r == z3.unknown:
